@@ -281,21 +281,28 @@ variable (dA : Disk Content MetaRec WalRec LogRec) (m1 : MetaRec)
 def J1 (s : CState Content MetaRec WalRec LogRec) (D : List (Ev Content MetaRec WalRec LogRec)) : Prop :=
   s.dur = dA ∧ s.volEffs = [.setMeta m1] ∧ D = []
 
-/-- phase 2: the durable part of the linearisation since the switch-over is the meta write, its fsync and an accepted
-flushed sequential trace `postD` that reaches the durable disk; every volatile effect is acceptable on the durable disk -/
+/-- phase 2, relative to the flushed sequential state `s0` in which the phase started: the durable part `D` of the
+linearisation since then is an accepted sequential trace that reaches the durable disk; every volatile effect is
+acceptable on the durable disk -/
+def J2c (s0 : Exec Content MetaRec WalRec LogRec) (s : CState Content MetaRec WalRec LogRec)
+    (D : List (Ev Content MetaRec WalRec LogRec)) : Prop :=
+  PostG ok s0 D ∧ run s0 D = ⟨s.dur, []⟩ ∧ ∀ e ∈ s.volEffs, ok s.dur e
+
+/-- phase 2 of a sync: the durable part of the linearisation since the switch-over is the meta write, its fsync and an
+accepted flushed sequential trace `postD` -/
 def J2 (s : CState Content MetaRec WalRec LogRec) (D : List (Ev Content MetaRec WalRec LogRec)) : Prop :=
   ∃ postD, D = [Ev.eff (.setMeta m1), Ev.fsync File.fMeta] ++ postD ∧
-    PostG ok ⟨applyEff dA (.setMeta m1), []⟩ postD ∧
-    run ⟨applyEff dA (.setMeta m1), []⟩ postD = ⟨s.dur, []⟩ ∧
-    ∀ e ∈ s.volEffs, ok s.dur e
+    J2c ok ⟨applyEff dA (.setMeta m1), []⟩ s postD
 
 def J (ph : Nat) (s : CState Content MetaRec WalRec LogRec) (D : List (Ev Content MetaRec WalRec LogRec)) : Prop :=
   (ph = 1 ∧ J1 dA m1 s D) ∨ (ph = 2 ∧ J2 ok dA m1 s D)
 
-theorem J2_step (s : CState Content MetaRec WalRec LogRec) (D : List (Ev Content MetaRec WalRec LogRec))
-    (ev : CEv Content MetaRec WalRec LogRec) (hj : J2 ok dA m1 s D) (hc : accChk A0 ok 2 s ev) :
-    nextPhase 2 (cstep s ev) ev = 2 ∧ J2 ok dA m1 (cstep s ev) (D ++ linDStep s ev) := by
-  obtain ⟨postD, hD, hpost, hrun, hvol⟩ := hj
+omit dA m1 in
+theorem J2c_step (s0 : Exec Content MetaRec WalRec LogRec) (s : CState Content MetaRec WalRec LogRec)
+    (D : List (Ev Content MetaRec WalRec LogRec))
+    (ev : CEv Content MetaRec WalRec LogRec) (hj : J2c ok s0 s D) (hc : accChk A0 ok 2 s ev) :
+    nextPhase 2 (cstep s ev) ev = 2 ∧ J2c ok s0 (cstep s ev) (D ++ linDStep s ev) := by
+  obtain ⟨hpost, hrun, hvol⟩ := hj
   cases ev with
   | effBegin id e =>
     cases hm : e.isMeta with
@@ -306,7 +313,8 @@ theorem J2_step (s : CState Content MetaRec WalRec LogRec) (D : List (Ev Content
         rcases hc with hc | hc
         · omega
         · exact hc.2
-      refine ⟨by simp [nextPhase], postD, by simp [linDStep, flushedBy, hD], hpost, hrun, ?_⟩
+      refine ⟨by simp [nextPhase], by simpa [linDStep, flushedBy] using hpost,
+        by simpa [linDStep, flushedBy, cstep] using hrun, ?_⟩
       intro e' he'
       simp only [cstep, CState.volEffs, List.map_append, List.mem_append, List.map_cons, List.map_nil,
         List.mem_singleton] at he'
@@ -314,16 +322,16 @@ theorem J2_step (s : CState Content MetaRec WalRec LogRec) (D : List (Ev Content
       · exact hvol e' he'
       · exact hok
   | effEnd id =>
-    refine ⟨rfl, postD, by simp [linDStep, flushedBy, hD], hpost, hrun, ?_⟩
+    refine ⟨rfl, by simpa [linDStep, flushedBy] using hpost, by simpa [linDStep, flushedBy, cstep] using hrun, ?_⟩
     simp only [cstep, CState.volEffs, markEnded_effs]
     exact hvol
   | fsyncBegin tid f =>
-    exact ⟨rfl, postD, by simp [linDStep, flushedBy, hD], hpost, hrun, hvol⟩
+    exact ⟨rfl, by simpa [linDStep, flushedBy] using hpost, by simpa [linDStep, flushedBy, cstep] using hrun, hvol⟩
   | fsyncEnd tid f =>
     refine ⟨by simp [nextPhase], ?_⟩
     simp only [cstep, linDStep, flushedBy]
     cases takeCSync f tid s.syncs with
-    | none => exact ⟨postD, by simp [hD], hpost, hrun, hvol⟩
+    | none => exact ⟨by simpa using hpost, by simpa using hrun, hvol⟩
     | some x =>
       obtain ⟨cov, rest⟩ := x
       simp only
@@ -337,7 +345,7 @@ theorem J2_step (s : CState Content MetaRec WalRec LogRec) (D : List (Ev Content
         have := (List.mem_filter.mp hv).2
         simp only [covered, Bool.and_eq_true, decide_eq_true_eq] at this
         exact this.1
-      refine ⟨postD ++ block f ((s.vol.filter (covered f cov)).map (·.eff)), by simp [hD], ?_, ?_, ?_⟩
+      refine ⟨?_, ?_, ?_⟩
       · rw [postG_append, hrun]
         exact ⟨hpost, postG_block ok _ f _ hF⟩
       · rw [run_append, hrun, run_block _ _ _ hfile]
@@ -345,6 +353,29 @@ theorem J2_step (s : CState Content MetaRec WalRec LogRec) (D : List (Ev Content
       · intro e he
         have hmem := flush_volEffs_sub s f cov rest e he
         exact ok_applyEffs ok hstab _ s.dur e (hvol e hmem) hF
+
+omit dA m1 in
+theorem J2c_run (s0 : Exec Content MetaRec WalRec LogRec) (ct : List (CEv Content MetaRec WalRec LogRec)) :
+    ∀ (s : CState Content MetaRec WalRec LogRec) (D : List (Ev Content MetaRec WalRec LogRec)),
+      J2c ok s0 s D → cAll (accChk A0 ok) 2 s ct →
+        phRun 2 s ct = 2 ∧ J2c ok s0 (crun s ct) (D ++ linDRun s ct) := by
+  induction ct with
+  | nil => intro s D hj _; exact ⟨rfl, by simpa [crun, linDRun] using hj⟩
+  | cons ev ct ih =>
+    intro s D hj hc
+    obtain ⟨h1, h2⟩ := J2c_step A0 ok hstab s0 s D ev hj hc.1
+    have hc2 := hc.2
+    rw [h1] at hc2
+    have := ih _ _ h2 hc2
+    simp only [phRun, h1, crun_cons, linDRun, ← List.append_assoc]
+    exact this
+
+theorem J2_step (s : CState Content MetaRec WalRec LogRec) (D : List (Ev Content MetaRec WalRec LogRec))
+    (ev : CEv Content MetaRec WalRec LogRec) (hj : J2 ok dA m1 s D) (hc : accChk A0 ok 2 s ev) :
+    nextPhase 2 (cstep s ev) ev = 2 ∧ J2 ok dA m1 (cstep s ev) (D ++ linDStep s ev) := by
+  obtain ⟨postD, hD, hj⟩ := hj
+  obtain ⟨h1, h2⟩ := J2c_step A0 ok hstab _ s postD ev hj hc
+  exact ⟨h1, postD ++ linDStep s ev, by rw [hD, List.append_assoc], h2⟩
 
 omit hstab in
 theorem J1_step (s : CState Content MetaRec WalRec LogRec) (D : List (Ev Content MetaRec WalRec LogRec))
@@ -518,5 +549,24 @@ theorem accepted_bridge (A0 : Eff Content MetaRec WalRec LogRec → Prop)
           apply LinShape.durable
           rw [postG_append, hrun]
           exact ⟨hpost, postG_effs ok _ _ hv⟩
+
+/-- **Bridge for a run that starts with the switch-over durable** (the recovery performed by `open`): if the concurrent
+trace `ct`, started on the flushed disk `d` in phase 2, is accepted, the linearisation of EVERY prefix is a sequential
+trace accepted event by event (`PostG ok`, the shape of `PostOK`) from `⟨d, []⟩`. -/
+theorem accepted_bridge_phase2 (A0 : Eff Content MetaRec WalRec LogRec → Prop)
+    (ok : Disk Content MetaRec WalRec LogRec → Eff Content MetaRec WalRec LogRec → Prop)
+    (hstab : ∀ d d' e e', ok d e → ok d' e' → ok (applyEff d e') e)
+    (d : Disk Content MetaRec WalRec LogRec) (ct : List (CEv Content MetaRec WalRec LogRec))
+    (hacc : cAll (accChk A0 ok) 2 (cinit d) ct) :
+    ∀ cp, cp <+: ct → PostG ok ⟨d, []⟩ (lin d cp) := by
+  intro cp hcp
+  obtain ⟨r, hr⟩ := hcp
+  rw [← hr, cAll_append] at hacc
+  have hj0 : J2c ok ⟨d, []⟩ (cinit d) [] := ⟨trivial, rfl, fun e he => by cases he⟩
+  obtain ⟨_, hpost, hrun, hvol⟩ := J2c_run A0 ok hstab ⟨d, []⟩ cp (cinit d) [] hj0 hacc.1
+  simp only [List.nil_append] at hpost hrun
+  unfold lin
+  rw [postG_append, hrun]
+  exact ⟨hpost, postG_effs ok _ _ hvol⟩
 
 end NomtDisk
